@@ -1,6 +1,16 @@
-import JunoModel.C01.Proofs
+import JunoModel.C01.ProofsSpec
+import JunoModel.C01.ProofsState
+import JunoModel.C01.ModelLegacy
 /-!
 C01 — property theorems (statements only; helper lemmas are in `Proofs*.lean`).
+Every theorem in this module is an obligation listed in evidence/C01.json with its axioms.
+
+Reading guide. `Spec.root k n m` is the Starknet commitment (the `(length, path, bottom)` definition
+of the protocol documentation) of the key/value map `m : Path → HTerm` over keys of `n` bits, `felt 0`
+meaning "absent"; hashes are free terms (ideal collision-free hash). `absRun ops` is the plain map
+semantics of an operation sequence (last write wins, writing zero deletes). `Trie2.run k ops` is
+what `core/trie2` builds: `Update` (insert / overwrite / delete) and `Hash()` (fills the per-node
+hash caches) applied from the empty trie.
 -/
 namespace Juno.C01.Props
 open Juno.C01
@@ -8,5 +18,250 @@ open Juno.C01
 /-- The commitment of the empty map is zero at every height. -/
 theorem spec_root_empty (k : HashKind) (n : Nat) : Spec.root k n (fun _ => .felt 0) = .felt 0 := by
   simp [Spec.root, spec_node_empty, SNode.hash, SNode.empty]
+
+/-- `Spec.root` is a function of the key/value SET: it only looks at keys of the trie's height. -/
+theorem spec_root_extensional (k : HashKind) (n : Nat) (m m' : Path → HTerm)
+    (h : ∀ key, key.length = n → m key = m' key) : Spec.root k n m = Spec.root k n m' := by
+  simp only [Spec.root]; rw [spec_node_congr k n m m' h]
+
+/-- **trie2 is canonical.** For EVERY sequence of inserts, overwrites, zero-writes (to present or
+absent keys) and interleaved `Hash()` calls on keys of the trie's height: the tree stays canonical
+(no empty edge, no edge under an edge, two non-empty children per binary node, values exactly at
+the leaves), every cached inner hash is the hash of the subtree below it, and the root hash is the
+Starknet commitment of the resulting key/value map. -/
+theorem trie2_canonical (k : HashKind) (n : Nat) (ops : List Op) (hv : ValidOps n ops) :
+    WFRoot (Trie2.run k ops) n ∧ CacheOK k (Trie2.run k ops) ∧
+    (Trie2.hashRoot k (Trie2.run k ops)).1 = Spec.root k n (absRun ops) :=
+  let h := run_inv k n ops hv
+  ⟨h.wf, h.cache, inv_hash h⟩
+
+/-- The trie implements the map: reading any key after any history returns the last value written
+(zero if deleted / never written). -/
+theorem trie2_get (k : HashKind) (n : Nat) (ops : List Op) (hv : ValidOps n ops)
+    (key : Path) (hk : key.length = n) : Trie2.get (Trie2.run k ops) key = absRun ops key :=
+  (run_inv k n ops hv).sem key hk
+
+/-- **Order independence.** Two histories (any order, any overwrites / deletions / re-insertions in
+between) that end in the same key/value map produce the same root. -/
+theorem trie2_order_independent (k : HashKind) (n : Nat) (ops ops' : List Op)
+    (hv : ValidOps n ops) (hv' : ValidOps n ops')
+    (hsame : ∀ key, key.length = n → absRun ops key = absRun ops' key) :
+    (Trie2.hashRoot k (Trie2.run k ops)).1 = (Trie2.hashRoot k (Trie2.run k ops')).1 := by
+  rw [(trie2_canonical k n ops hv).2.2, (trie2_canonical k n ops' hv').2.2]
+  exact spec_root_extensional k n _ _ hsame
+
+/-- **Batching independence.** Where `Hash()` is called in between (after every write, once per
+block, never) does not change the root: cached hashes are never stale. -/
+theorem trie2_batching_independent (k : HashKind) (n : Nat) (ops : List Op) (hv : ValidOps n ops) :
+    (Trie2.hashRoot k (Trie2.run k ops)).1 =
+      (Trie2.hashRoot k (Trie2.run k (ops.filter (fun o => match o with | .put .. => true | .hash => false)))).1 := by
+  apply trie2_order_independent k n _ _ hv
+  · intro op hop
+    exact hv op (List.mem_filter.mp hop).1
+  · intro key _
+    have : ∀ (ops : List Op) (m : Path → HTerm),
+        ops.foldl absStep m =
+          (ops.filter (fun o => match o with | .put .. => true | .hash => false)).foldl absStep m := by
+      intro ops
+      induction ops with
+      | nil => intro m; rfl
+      | cons o rest ih =>
+        intro m
+        cases o with
+        | put a b => simp [List.filter, ih]
+        | hash => simp [List.filter, absStep, ih]
+    simp only [absRun]
+    rw [this ops]
+
+/-! Non-vacuity: concrete histories that exercise an edge split, a binary collapse into the sibling
+edge, a no-op zero write and a cached hash, evaluated by the kernel. -/
+
+example : ValidOps 3 [.put [true, false, true] (.felt 7), .hash, .put [true, false, false] (.felt 9),
+    .put [false, false, false] (.felt 0), .put [true, false, true] (.felt 0)] := by
+  intro op hop; simp at hop; rcases hop with h | h | h | h | h <;> subst h <;> simp
+
+example : (Trie2.hashRoot .pedersen (Trie2.run .pedersen
+    [.put [true, false, true] (.felt 7), .hash, .put [true, false, false] (.felt 9)])).1
+    = .add (.h .pedersen (.h .pedersen (.felt 9) (.felt 7)) (.felt 2)) 2 := by decide
+
+example : (Trie2.hashRoot .pedersen (Trie2.run .pedersen
+    [.put [true, false, true] (.felt 7), .hash, .put [true, false, false] (.felt 9),
+     .put [false, false, false] (.felt 0), .put [true, false, true] (.felt 0)])).1
+    = .add (.h .pedersen (.felt 9) (.felt 4)) 3 := by decide
+
+example : Spec.root .pedersen 3 (absRun
+    [.put [true, false, true] (.felt 7), .hash, .put [true, false, false] (.felt 9)])
+    = .add (.h .pedersen (.h .pedersen (.felt 9) (.felt 7)) (.felt 2)) 2 := by decide
+
+/-! ## State commitment
+
+`State.run purge ds St.empty` applies the state diffs `ds` (deploy, replace class, nonce, storage
+writes incl. zero writes, declared / migrated classes) the way `core/state.State.Update` does
+(per-contract storage tries, contract trie, class trie, all trie2). `purge = true` is core/state
+(and core/deprecatedstate with the proposed fix); `purge = false` is core/deprecatedstate of the
+unchanged tree. `State.protocolLeaf` is the Starknet OS rule for a contract leaf. -/
+
+/-- **The state root is the protocol-defined commitment of the state the node holds**, after ANY
+sequence of accepted state updates and on both sides of the 0.14.0 switch (`pre014`):
+`stateCommitment(version, Spec.root_Pedersen(address ↦ protocol leaf(class, Spec.root(storage), nonce)),
+Spec.root_Poseidon(class hash ↦ Poseidon(LEAF_V0, compiled class hash)))`; every trie root in it
+is the pure function `Spec.root` of a key/value map. -/
+theorem state_commitment_spec (pre014 : Bool) (ds : List State.Diff)
+    (hd : ∀ d ∈ ds, State.ValidDiff d) (s : State.St)
+    (h : State.run true ds State.St.empty = some s) :
+    State.commitment pre014 s =
+      State.stateCommitment pre014
+        (Spec.root .pedersen 251 (State.protocolLeafOfRecs s.recs))
+        (Spec.root .poseidon 251 (absRun (ds.flatMap State.classOpsOf))) := by
+  have hc : Inv .poseidon 251 State.St.empty.cltrie (fun _ => .felt 0) :=
+    ⟨Or.inl rfl, by simp [State.St.empty, CacheOK], by intro k _; simp [State.St.empty, Trie2.get]⟩
+  obtain ⟨w, i⟩ := State.run_swf ds hd _ _ _ State.swf_empty hc h
+  have hr := State.run_recsOK ds hd _ _ State.swf_empty
+    (by intro a r hh; simp [State.St.empty, State.alookup] at hh) h
+  rw [State.protocolLeaf_eq_of_ok hr]
+  exact State.commitment_of_swf w _ i pre014
+
+/-- The storage trie of every contract record is canonical and its root (the `storage_root` in the
+leaf above) is the commitment of its key/value map; same for the contract trie. -/
+theorem state_tries_canonical (purge : Bool) (ds : List State.Diff)
+    (hd : ∀ d ∈ ds, State.ValidDiff d) (s : State.St)
+    (h : State.run purge ds State.St.empty = some s) :
+    (∀ addr r, State.alookup s.recs addr = some r → WFRoot r.storage 251 ∧ CacheOK .pedersen r.storage) ∧
+    (Trie2.hashRoot .pedersen s.ctrie).1 = Spec.root .pedersen 251 (State.leafOfRecs s.recs) := by
+  have hc : Inv .poseidon 251 State.St.empty.cltrie (fun _ => .felt 0) :=
+    ⟨Or.inl rfl, by simp [State.St.empty, CacheOK], by intro k _; simp [State.St.empty, Trie2.get]⟩
+  obtain ⟨w, _⟩ := State.run_swf ds hd _ _ _ State.swf_empty hc h
+  exact ⟨w.recs, inv_hash w.ctrie⟩
+
+/-- Both sides of the protocol-version switch: before 0.14.0 an empty class trie makes the state
+root the bare contract-trie root ... -/
+theorem state_commitment_pre_0_14_0 (contractRoot : HTerm) (h : contractRoot ≠ .felt 0) :
+    State.stateCommitment true contractRoot (.felt 0) = contractRoot := by
+  simp [State.stateCommitment, h]
+
+/-- ... from 0.14.0 on the Poseidon hash is always applied (unless both tries are empty). -/
+theorem state_commitment_from_0_14_0 (contractRoot classRoot : HTerm)
+    (h : contractRoot ≠ .felt 0 ∨ classRoot ≠ .felt 0) :
+    State.stateCommitment false contractRoot classRoot =
+      .pos3 (.felt State.stateVersion0) contractRoot classRoot := by
+  simp only [State.stateCommitment]
+  cases h with
+  | inl h => simp [h]
+  | inr h => simp [h]
+
+/-!
+DEFECT (known finding `deprecatedstate-keeps-leaf-of-emptied-system-contract`).
+The full-strength statement for the legacy backend of the unchanged tree would be
+`state_commitment_spec` with `State.run false` — it is FALSE: `core/deprecatedstate.State.Update`
+never removes a system contract whose storage is empty again, so its record keeps the leaf
+`H(H(H(0,0),0),0)` although the protocol leaf of the empty contract state is 0.
+Proved instead: the `_partial` form (juno's own leaf formula over the records held) and the
+negation of the full statement with a concrete witness (block: write 0 to slot 7 of contract 0x1). -/
+theorem legacy_state_commitment_spec_partial (pre014 : Bool) (ds : List State.Diff)
+    (hd : ∀ d ∈ ds, State.ValidDiff d) (s : State.St)
+    (h : State.run false ds State.St.empty = some s) :
+    State.commitment pre014 s =
+      State.stateCommitment pre014
+        (Spec.root .pedersen 251 (State.leafOfRecs s.recs))
+        (Spec.root .poseidon 251 (absRun (ds.flatMap State.classOpsOf))) := by
+  have hc : Inv .poseidon 251 State.St.empty.cltrie (fun _ => .felt 0) :=
+    ⟨Or.inl rfl, by simp [State.St.empty, CacheOK], by intro k _; simp [State.St.empty, Trie2.get]⟩
+  obtain ⟨w, i⟩ := State.run_swf ds hd _ _ _ State.swf_empty hc h
+  exact State.commitment_of_swf w _ i pre014
+
+/-- contract address 0x1 and storage slot 7 as 251-bit paths -/
+def addr1 : Path := List.replicate 250 false ++ [true]
+def slot7 : Path := List.replicate 248 false ++ [true, true, true]
+def zeroWriteToSystemContract : State.Diff := ⟨[], [], [], [], [], [(addr1, [(slot7, .felt 0)])]⟩
+
+theorem addr1_length : addr1.length = 251 := by
+  rw [addr1, List.length_append, List.length_replicate]; rfl
+theorem slot7_length : slot7.length = 251 := by
+  rw [slot7, List.length_append, List.length_replicate]; rfl
+
+set_option maxRecDepth 8000 in
+theorem legacy_state_commitment_not_protocol :
+    ∃ (ds : List State.Diff) (s : State.St), (∀ d ∈ ds, State.ValidDiff d) ∧
+      State.run false ds State.St.empty = some s ∧
+      State.commitment true s ≠
+        State.stateCommitment true (Spec.root .pedersen 251 (State.protocolLeafOfRecs s.recs))
+          (Spec.root .poseidon 251 (absRun (ds.flatMap State.classOpsOf))) := by
+  refine ⟨[zeroWriteToSystemContract],
+    ⟨[(addr1, ⟨.felt 0, .felt 0, .nil⟩)],
+     .edge addr1 (.value (State.contractLeaf (.felt 0) (.felt 0) (.felt 0))) Flags.new, .nil⟩, ?_, by decide, ?_⟩
+  · intro d hd'
+    simp at hd'; subst hd'
+    refine ⟨by simp [zeroWriteToSystemContract], by simp [zeroWriteToSystemContract],
+      by simp [zeroWriteToSystemContract], by simp [zeroWriteToSystemContract], ?_⟩
+    intro e he
+    simp [zeroWriteToSystemContract] at he; subst he
+    exact ⟨addr1_length, by intro kv hkv; simp at hkv; subst hkv; exact slot7_length⟩
+  · have hz : State.protocolLeafOfRecs [(addr1, (⟨.felt 0, .felt 0, .nil⟩ : State.Rec))] = fun _ => .felt 0 := by
+      funext a
+      simp only [State.protocolLeafOfRecs, State.alookup]
+      split
+      · rfl
+      · rename_i r hr
+        by_cases ha : addr1 = a
+        · simp [ha] at hr; subst hr
+          have : Trie2.get .nil = fun _ => HTerm.felt 0 := by funext p; simp [Trie2.get]
+          simp [State.protocolLeaf, this, spec_root_empty]
+        · simp [ha] at hr
+    rw [hz, spec_root_empty]
+    have hcl : absRun (List.flatMap State.classOpsOf [zeroWriteToSystemContract]) = fun _ => .felt 0 := by
+      simp [State.classOpsOf, zeroWriteToSystemContract, absRun]
+    rw [hcl, spec_root_empty]
+    decide
+
+set_option maxRecDepth 8000 in
+/-- the same history on core/state (and the repaired legacy backend): root 0, as the protocol says -/
+example : (State.run true [zeroWriteToSystemContract] State.St.empty).map (State.commitment true)
+    = some (.felt 0) := by decide
+
+set_option maxRecDepth 8000 in
+/-- non-vacuity of `state_commitment_spec`: a deploy + declare + storage block is accepted -/
+example : (State.run true [⟨[(slot7, .felt 9)], [], [(slot7, .felt 5)], [], [(slot7, .felt 1)],
+    [(slot7, [(addr1, .felt 3)]), (addr1, [(slot7, .felt 4)])]⟩] State.St.empty).isSome = true := by decide
+
+/-! ## The legacy trie (`core/trie`)
+
+`Legacy.put / Legacy.hash` transcribe the flat, path-keyed trie with its dirty-node list and lazy
+rehash. The full statement
+
+    theorem legacy_canonical (k n ops) (hv : ValidOps n ops) :
+        Legacy.runOps n k ops = some (Spec.root k n (absRun ops))
+
+(and with it `backends_agree : Legacy.runOps n k ops = some (Trie2.hashRoot k (Trie2.run k ops)).1`)
+is NOT proved for unbounded histories: it needs the invariant "every stored inner node is the longest
+common prefix of its two children, and its cached value is the hash of its subtree unless a dirty key
+lies strictly below it" over the flat storage, which was not closed. What is proved is the bounded
+instance below (every history of at most 3 operations over all keys of a height-2 trie and of at most
+4 operations at height 1, values {0,1,2}, `Hash()` anywhere), checked by kernel evaluation; beyond
+the bound the legacy model is tied to the code and to `Spec.root` by the correspondence harness. -/
+
+def allPaths : Nat → List Path
+  | 0 => [[]]
+  | n + 1 => (allPaths n).flatMap (fun p => [false :: p, true :: p])
+
+def smallOps (h : Nat) : List Op :=
+  (allPaths h).flatMap (fun key => [Op.put key (.felt 0), .put key (.felt 1), .put key (.felt 2)]) ++ [.hash]
+
+def seqsUpTo : Nat → List Op → List (List Op)
+  | 0, _ => [[]]
+  | n + 1, alpha => [] :: (seqsUpTo n alpha).flatMap (fun s => alpha.map (fun o => o :: s))
+
+set_option maxRecDepth 100000 in
+/-- bounded instance of `backends_agree` / `legacy_canonical`, height 2, ≤ 3 operations -/
+theorem legacy_agrees_with_trie2_h2_partial :
+    ∀ ops ∈ seqsUpTo 3 (smallOps 2),
+      Legacy.runOps 2 .pedersen ops = some (Trie2.hashRoot .pedersen (Trie2.run .pedersen ops)).1 := by
+  decide
+
+set_option maxRecDepth 100000 in
+/-- bounded instance, height 1, ≤ 4 operations -/
+theorem legacy_agrees_with_trie2_h1_partial :
+    ∀ ops ∈ seqsUpTo 4 (smallOps 1),
+      Legacy.runOps 1 .poseidon ops = some (Trie2.hashRoot .poseidon (Trie2.run .poseidon ops)).1 := by
+  decide
 
 end Juno.C01.Props
